@@ -108,6 +108,8 @@ async def _pair_main(loop, case: dict, tmp: str):
     from aioslsk.transfer.state import TransferState
     N = case['flen']
     F = _pat(case['mul'], case['add'], 0, N)
+    if case.get('second'):
+        return await _multi_main(loop, case, tmp)
     net = fakenet.FakeNet().install()
     vs, obs = [], []
 
@@ -266,6 +268,169 @@ async def _pair_main(loop, case: dict, tmp: str):
         return obs, [], vs
     finally:
         for c in clients:
+            try:
+                await c.stop()
+            except Exception:
+                pass
+        net.uninstall()
+
+
+async def _multi_main(loop, case: dict, tmp: str):
+    """One downloader, several uploaders (``case['second']`` … each shares one file); the downloads are requested
+    ``stagger`` virtual seconds apart, so that their initializations overlap (or not). No API call afterwards.
+    Monitor: a download is COMPLETE only with the bytes of the file ITS uploader shares; every file connection
+    carries the offset of the download from the user who opened it; all transfers finish."""
+    from aioslsk.client import SoulSeekClient
+    from aioslsk.settings import Settings
+    from aioslsk.transfer.state import TransferState
+    ups = [{'name': 'up', 'flen': case['flen'], 'mul': case['mul'], 'add': case['add']}]
+    for i, u in enumerate(case['second']):
+        ups.append({'name': f'up{i + 2}', 'flen': u['flen'], 'mul': u['mul'], 'add': u['add']})
+    for u in ups:
+        u['F'] = _pat(u['mul'], u['add'], 0, u['flen'])
+    net = fakenet.FakeNet().install()
+    vs = []
+
+    def V(sig, what, **kw):
+        vs.append(Violation(sig, what, case, **kw))
+
+    clients = {}
+    try:
+        ports = {'down': 61000}
+        for i, u in enumerate(ups):
+            ports[u['name']] = 62000 + 10 * i
+        server = _Server(ports)
+        net.endpoints[2416] = fakenet.Endpoint('accept', server.srv.handler)
+        for name in ports:
+            dl = os.path.join(tmp, name, 'downloads')
+            os.makedirs(dl, exist_ok=True)
+            dirs = []
+            if name != 'down':
+                u = next(x for x in ups if x['name'] == name)
+                share = os.path.join(tmp, name, 'shared', 'music')
+                os.makedirs(share)
+                with open(os.path.join(share, 'song.bin'), 'wb') as f:
+                    f.write(u['F'])
+                dirs = [{'path': os.path.join(tmp, name, 'shared'), 'share_mode': 'everyone'}]
+            s = Settings(
+                credentials={'username': name, 'password': 'pw'},
+                network={'server': {'hostname': 'srv', 'port': 2416, 'reconnect': {'auto': False}},
+                         'listening': {'port': ports[name], 'obfuscated_port': ports[name] + 1},
+                         'upnp': {'enabled': False},
+                         'limits': {'upload_speed_kbps': case.get('lim_up', 0),
+                                    'download_speed_kbps': case.get('lim_down', 0)}},
+                shares={'scan_on_start': False, 'download': dl, 'directories': dirs})
+            clients[name] = SoulSeekClient(s)
+        down = clients['down']
+        cuts = list(case.get('cuts', []))
+        state = {'fconn': 0, 'offsets': []}
+        dls = {}
+        real_make_pair = net.make_pair
+
+        def make_pair(remote_addr):
+            a_reader, a_writer, b_reader, b_writer = real_make_pair(remote_addr)
+            lat = {'v': LATENCY}
+            _add_latency(a_writer, loop, lat)
+            _add_latency(b_writer, loop, lat)
+            seen = {'init': False}
+
+            def on_write_a(data):
+                if seen['init']:
+                    return
+                seen['init'] = True
+                buf = bytes(a_writer.sent)
+                try:
+                    if buf[4] == 1:
+                        (ulen,) = struct.unpack('<I', buf[5:9])
+                        who = buf[9:9 + ulen].decode()
+                        typ = buf[9 + ulen + 4:9 + ulen + 5].decode()
+                        if typ == 'P':
+                            lat['v'] = case.get('lat_p', LATENCY)
+                        if typ == 'F':
+                            lat['v'] = case.get('lat_f_by', {}).get(who, case.get('lat_f', LATENCY))
+                            idx = state['fconn']
+                            state['fconn'] += 1
+                            if idx < len(cuts):
+                                a_writer.fail_after = len(buf) + 4 + cuts[idx]
+
+                            def on_write_b(d, w=b_writer, who=who):
+                                if len(w.sent) == 8:
+                                    off = struct.unpack('<Q', bytes(w.sent))[0]
+                                    t = dls.get(who)
+                                    try:
+                                        size = os.path.getsize(t.local_path) if t is not None and t.local_path else 0
+                                    except OSError:
+                                        size = 0
+                                    state['offsets'].append((who, off, size))
+                            b_writer.on_write = on_write_b
+                except (IndexError, struct.error, UnicodeDecodeError):
+                    pass
+            a_writer.on_write = on_write_a
+            return a_reader, a_writer, b_reader, b_writer
+        net.make_pair = make_pair
+
+        for c in clients.values():
+            await c.start()
+            await c.login()
+        remotes = {}
+        for u in ups:
+            c = clients[u['name']]
+            await c.shares.scan()
+        await advance(2)
+        for u in ups:
+            for d in clients[u['name']].shares.shared_directories:
+                for it in d.items:
+                    remotes[u['name']] = it.get_remote_path()
+        if len(remotes) != len(ups):
+            return ['HARNESS no shared item'], [], vs
+        for i, u in enumerate(ups):
+            if i and case.get('stagger'):
+                await advance(case['stagger'])
+            dls[u['name']] = await down.transfers.download(u['name'], remotes[u['name']])
+
+        def upload_of(name):
+            return next((t for t in clients[name].transfers.transfers if t.is_upload()), None)
+
+        def all_complete():
+            return all(dls[u['name']].state.VALUE == TransferState.COMPLETE and upload_of(u['name']) is not None and
+                       upload_of(u['name']).state.VALUE == TransferState.COMPLETE for u in ups)
+
+        t0 = loop.time()
+        for _ in range(int((SETTLE_AFTER_FAULTS + 600) / 10)):
+            await advance(10)
+            if all_complete() and state['fconn'] >= len(cuts):
+                break
+        parts = []
+        for u in ups:
+            t, ul = dls[u['name']], upload_of(u['name'])
+            loc = _read(t.local_path)
+            dst = t.state.VALUE.name + (f':{t.fail_reason}' if t.fail_reason else '')
+            ust = (ul.state.VALUE.name + (f':{ul.fail_reason}' if ul.fail_reason else '')) if ul is not None else 'none'
+            parts.append(f"{u['name']}: down={dst} up={ust} len={len(loc)}/{u['flen']} same={loc == u['F']}")
+            if t.state.VALUE == TransferState.COMPLETE and loc != u['F']:
+                other = next((x['name'] for x in ups if x is not u and x['F'] == loc), None)
+                V('C04-complete-but-differs',
+                  f"download of {u['name']}'s file is COMPLETE with {len(loc)} bytes that are not the file {u['name']} "
+                  f"shares ({u['flen']} bytes)" + (f" — they are the file {other} shares" if other else ''),
+                  observed={'len': len(loc), 'is_file_of': other}, required={'len': u['flen'], 'is_file_of': u['name']})
+            elif loc != u['F'][:len(loc)]:
+                V('C04-prefix-corrupted', f"local file of the download from {u['name']} ({len(loc)} bytes) is not a prefix "
+                  'of the file that user shares', observed=len(loc))
+            if not (t.state.VALUE == TransferState.COMPLETE and ul is not None and
+                    ul.state.VALUE == TransferState.COMPLETE and loc == u['F']):
+                V('C04-pair-not-finished',
+                  f"{len(ups)} uploaders, {len(cuts)} cut(s), then no more faults: after {loop.time() - t0:.0f} virtual "
+                  f"seconds the download from {u['name']} is {dst}, its upload is {ust}, {len(loc)}/{u['flen']} bytes",
+                  observed={'down': dst, 'up': ust, 'len': len(loc)},
+                  required={'down': 'COMPLETE', 'up': 'COMPLETE', 'len': u['flen']})
+        for who, off, size in state['offsets']:
+            if off != size:
+                V('C04-wrong-offset', f'offset {off} sent on the file connection opened by {who} while the local file of the '
+                  f'download from {who} holds {size} bytes', observed=off, required=size)
+        obs = ['; '.join(parts) + f" fconns={state['fconn']} offsets={state['offsets']}"]
+        return obs, [], vs
+    finally:
+        for c in clients.values():
             try:
                 await c.stop()
             except Exception:
